@@ -28,6 +28,10 @@ type Object struct {
 	Mode ObjMode
 	// TypeKey names the location class for field invariants ("ppu.PPU", "global:cpu.bits").
 	TypeKey string
+	// MinLen: for '< len' pseudo objects, the smallest length the slice can have
+	// (so that small constants are known to be below the length as well).
+	MinLen    int64
+	MinLenSet bool
 }
 
 type CellKey struct {
@@ -577,8 +581,69 @@ func (s *State) LoadPtr(p *Ptr) Value {
 			c.VID = nextVID()
 			res = &c
 		}
+	} else if len(paths) == 1 && len(p.Idx) == 0 {
+		res = s.it.tagSliceSource(res, CellKey{p.Obj.ID, paths[0]})
 	}
 	return res
+}
+
+// tagSliceSource marks a slice value loaded from a cell: its length is "the
+// length of the slice held by that cell", whichever backing store that is. A
+// later "x % len(cell)" then proves "x < len(cell)" for every alternative.
+func (it *Interp) tagSliceSource(v Value, k CellKey) Value {
+	switch x := v.(type) {
+	case *Slice:
+		ref := it.lenCellObject(k)
+		c := *x
+		ln := x.Len.clone()
+		ln.IsLen = ref
+		if !ref.MinLenSet || x.Len.Lo < ref.MinLen {
+			ref.MinLen, ref.MinLenSet = x.Len.Lo, true
+		}
+		c.Len = ln
+		c.LenRef = ref
+		return &c
+	case *Multi:
+		any := false
+		alts := make([]Value, len(x.Alts))
+		for i, a := range x.Alts {
+			alts[i] = a
+			if sl, ok := a.(*Slice); ok {
+				alts[i] = it.tagSliceSource(sl, k)
+				any = true
+			}
+		}
+		if any {
+			return &Multi{Alts: alts}
+		}
+	}
+	return v
+}
+
+func (it *Interp) lenCellObject(k CellKey) *Object {
+	if it.lenCells == nil {
+		it.lenCells = map[CellKey]*Object{}
+	}
+	if o, ok := it.lenCells[k]; ok {
+		return o
+	}
+	name := "len(" + k.String() + ")"
+	if obj := it.ObjectByIDFast(k.Obj); obj != nil {
+		name = "len(" + obj.Name + k.Path + ")"
+	}
+	o := &Object{ID: -(len(it.lenCells) + 1), Name: name, Mode: ModeOpaque}
+	it.lenCells[k] = o
+	return o
+}
+
+// LenCellOf returns the cell a '< len' pseudo object stands for.
+func (it *Interp) LenCellOf(o *Object) (CellKey, bool) {
+	for k, v := range it.lenCells {
+		if v == o {
+			return k, true
+		}
+	}
+	return CellKey{}, false
 }
 
 // StorePtr writes v through p. Returns the cell keys written and whether the update was strong.
